@@ -439,6 +439,74 @@ def run_multi(items):
     return _dedup(viols), (tuple(sorted(replies.items())), tuple(sorted((n, tuple(sorted(after[n][0]))) for n in after)))
 
 
+# ------------------------------------------------------------------------------------------------
+# part (E): watchdog commands (they move the configured routes carrying that watchdog name in and out of the Adj-RIB-Out) with selectors
+# ------------------------------------------------------------------------------------------------
+CFGW = CFG.replace('family { ipv4 unicast; ipv6 unicast; ipv4 flow; }',
+                   'family { ipv4 unicast; ipv6 unicast; ipv4 flow; }\n  static { route 10.16.0.0/24 next-hop 2.2.2.2 watchdog dog withdraw; route 10.17.0.0/24 next-hop 2.2.2.2 watchdog cat; }')
+WD_ROUTE = {'dog': '10.16.0.0/24', 'cat': '10.17.0.0/24'}
+# name: (v6 line, v4 line, reply, (op, watchdog name, targets) | None)
+WCMD = {
+    'dog+1': ('peer 127.0.0.2 announce watchdog dog', 'neighbor 127.0.0.2 announce watchdog dog', 'done', ('up', 'dog', ('n1',))),
+    'dog+2': ('peer 127.0.0.3 announce watchdog dog', 'neighbor 127.0.0.3 announce watchdog dog', 'done', ('up', 'dog', ('n2',))),
+    'dog+*': ('peer * announce watchdog dog', 'announce watchdog dog', 'done', ('up', 'dog', ALL)),
+    'dog-1': ('peer 127.0.0.2 withdraw watchdog dog', 'neighbor 127.0.0.2 withdraw watchdog dog', 'done', ('down', 'dog', ('n1',))),
+    'cat-1': ('peer 127.0.0.2 withdraw watchdog cat', 'neighbor 127.0.0.2 withdraw watchdog cat', 'done', ('down', 'cat', ('n1',))),
+    'cat-as': ('peer [* peer-as 65002] withdraw watchdog cat', 'neighbor * peer-as 65002 withdraw watchdog cat', 'done', ('down', 'cat', ('n1', 'n3'))),
+    'cat-*': ('peer * withdraw watchdog cat', 'withdraw watchdog cat', 'done', ('down', 'cat', ALL)),
+    'cat+3': ('peer 127.0.0.4 announce watchdog cat', 'neighbor 127.0.0.4 announce watchdog cat', 'done', ('up', 'cat', ('n3',))),
+    'bird+1': ('peer 127.0.0.2 announce watchdog bird', 'neighbor 127.0.0.2 announce watchdog bird', 'done', None),   # no route carries that name
+    'dog+none': ('peer 127.0.0.9 announce watchdog dog', 'neighbor 127.0.0.9 announce watchdog dog', 'error', None),
+    'unknown': ('frobnicate the routes', 'frobnicate the routes', 'error', None),
+}
+
+
+def run_watchdog(args):
+    seq, version = args
+    viols = []
+    lines = [WCMD[c][0 if version == 6 else 1] for c in seq]
+    with World(CFGW, env={'api.version': version}) as wd:
+        wd.settle()
+        before = rib_state(wd)
+        for line in lines:
+            wd.api_write((line + '\n').encode())
+            wd.settle()
+        wd.advance(0.05)
+        wd.settle()
+        complete, partial = parse_replies(wd.api_output())
+        after = rib_state(wd)
+        exc = wd.loop_exceptions()
+    # the model: a watchdog route is in the Adj-RIB-Out of a neighbor or held back, per neighbor
+    ribs = {n: {WD_ROUTE['cat']} for n in NEIGHBORS}
+    for n in NEIGHBORS:
+        if set(before[n][0]) != ribs[n]:
+            raise core.HarnessError(f'watchdog configuration: {n} starts with {before[n][0]}')
+    expected = []
+    for c in seq:
+        expected.append(WCMD[c][2])
+        eff = WCMD[c][3]
+        if eff:
+            for n in eff[2]:
+                (ribs[n].add if eff[0] == 'up' else ribs[n].discard)(WD_ROUTE[eff[1]])
+    terms = [l for l in complete if l in TERMINALS]
+    if terms != expected:
+        viols.append((f'watchdog:ack:{len(expected)}->{len(terms)}' if len(terms) != len(expected) else 'watchdog:ack-wrong', f'commands {lines}: terminal replies {terms}, expected {expected}'))
+    for n in NEIGHBORS:
+        if set(after[n][0]) != ribs[n]:
+            named = {t for c in seq if WCMD[c][3] for t in WCMD[c][3][2]}
+            viols.append((f'watchdog:rib-differs-from-model:{"selected" if n in named else "not-selected"}', f'commands {lines}: Adj-RIB-Out of {n} holds {sorted(after[n][0])}, the commands and their selectors say {sorted(ribs[n])}'))
+    if exc:
+        viols.append(('loop-exception', exc[0][:160]))
+    return _dedup(viols), (tuple(terms), tuple(sorted((n, tuple(sorted(after[n][0]))) for n in after)))
+
+
+def watchdog_jobs(tier):
+    names = list(WCMD)
+    jobs = [(seq, 6) for k in (1, 2, 3) for seq in itertools.product(names, repeat=k)]
+    jobs += [(seq, 4) for k in ((1, 2) if tier == 'quick' else (1, 2, 3)) for seq in itertools.product(names, repeat=k)]
+    return jobs
+
+
 def _dedup(viols):
     seen_v = set()
     outv = []
@@ -608,7 +676,7 @@ def run(ctx: core.Ctx) -> None:
     jobs = plan(ctx.tier) + inbound_jobs(ctx.tier)
     sels = selector_cases(ctx.tier)
     ctx.rule = (f'(A) every sequence of <= 2 commands (quick: 1 in 9 of the length-3 ones, thorough: all) over {len(COMMANDS)} commands (announce/withdraw to all or one peer, IPv6, out-of-range value, bad mask, missing next hop, unknown verb, no matching peer, eor, flush, ping), API v6 and v4 syntax; '
-                'every single cut (thorough: every pair of cuts) and byte-by-byte delivery for 7 streams; (C) two helper processes listed by different neighbor sets: every sequence of <= 2 (process, command) items over 12 commands and of 3 over 8 (thorough: 12), each process must read exactly the replies to its own commands and only the neighbors listing the process may change; (D) 12 commands written at once while an inbound connection nobody is configured for is refused with a NOTIFICATION scheduled among the command callbacks, the socket taking it after k attempts, every k < 330 (thorough 660); (B) every selector: 7 address forms (one a truncated address, one neighbor whose every value extends those of another neighbor) x every subset of {local-as, peer-as, router-id} x 4 values each (one only the beginning of values in use), plain and bracket form, and bracket lists of two; '
+                'every single cut (thorough: every pair of cuts) and byte-by-byte delivery for 7 streams; (C) two helper processes listed by different neighbor sets: every sequence of <= 2 (process, command) items over 12 commands and of 3 over 8 (thorough: 12), each process must read exactly the replies to its own commands and only the neighbors listing the process may change; (D) 12 commands written at once while an inbound connection nobody is configured for is refused with a NOTIFICATION scheduled among the command callbacks, the socket taking it after k attempts, every k < 330 (thorough 660); (E) every sequence of <= 3 of 11 watchdog commands (announce/withdraw watchdog with one address, an attribute term, the wildcard, an address of nobody, a name no route carries) on four neighbors whose configured routes carry two watchdog names; (B) every selector: 7 address forms (one a truncated address, one neighbor whose every value extends those of another neighbor) x every subset of {local-as, peer-as, router-id} x 4 values each (one only the beginning of values in use), plain and bracket form, and bracket lists of two; '
                 'non-trivial = distinct (reply sequence, final RIBs) outcome')
     ctx.assumptions += ['reference model: one terminal reply per command in order; refused commands change nothing; a selector matches a neighbor iff its address matches (or *) and every term equals the neighbor setting']
     pool = mp.Pool(min(16, os.cpu_count() or 1))
@@ -633,6 +701,16 @@ def run(ctx: core.Ctx) -> None:
             for sig, what in viols:
                 ctx.violation(sig, what, {'kind': 'multi', 'items': [list(x) for x in job]})
         ctx.coverage_extra['two_process_sequences'] = len(mjobs)
+        wjobs = watchdog_jobs(ctx.tier)
+        wresults = pool.map(run_watchdog, wjobs, chunksize=8)
+        core.replay_check(ctx, pool, run_watchdog, wjobs, wresults, stride=32)
+        for job, (viols, outcome) in zip(wjobs, wresults):
+            ctx.count('executions')
+            ctx.count('transitions', len(job[0]))
+            ctx.add_to_set('outcomes', outcome)
+            for sig, what in viols:
+                ctx.violation(sig, f'[API v{job[1]}] {what}', {'kind': 'watchdog', 'seq': list(job[0]), 'version': job[1]})
+        ctx.coverage_extra['watchdog_sequences'] = len(wjobs)
         for job, (viols, outcome) in zip(sels, pool.imap(run_selector, sels, chunksize=8)):
             ctx.count('executions')
             ctx.count('transitions')
@@ -651,6 +729,9 @@ def run(ctx: core.Ctx) -> None:
 
 
 def replay(case):
+    if case['kind'] == 'watchdog':
+        viols, o = run_watchdog((tuple(case['seq']), case['version']))
+        return [{'signature': s, 'what': wh} for s, wh in viols]
     if case['kind'] == 'multi':
         viols, o = run_multi(tuple(tuple(x) for x in case['items']))
         return [{'signature': s, 'what': wh} for s, wh in viols]
